@@ -14,6 +14,9 @@ type verdict struct {
 	Control   bool // the case is a positive control (honest reply, exit 0, empty stderr, not cut by a context)
 	ControlOK bool
 	Infra     string // harness could not judge
+	// observations that go beyond the literal statement (error type where the statement fixes none, lenient
+	// denotations of a field/version, ...): evidence only, r.Outcome("recorded:<key>"), never a violation
+	Recorded []string
 }
 
 func exitClass(e string) string {
@@ -31,8 +34,10 @@ func typedAny(cl string) bool {
 }
 func typedExec(cl string) bool { return cl == "malformed" || cl == "executable-file" }
 
-// rssBoundKB: 4 x cap per oversized stream above the baseline (very coarse).
-func rssBoundKB(streams int) int64 { return int64(streams) * 4 * (capBytes >> 10) }
+// rssBoundKB: 8 x cap per oversized stream above the baseline. Deliberately very coarse: the statement bounds what the
+// host BUFFERS, not how often it copies what it buffered (the unchanged code peaks at 3 x cap); an unbounded buffer
+// is made visible by the 512 MiB emitters (growth > 1 GiB), not by a tight bound.
+func rssBoundKB(streams int) int64 { return int64(streams) * 8 * (capBytes >> 10) }
 
 // judge applies the classification model of C17 to one observed result.
 func judge(c Case, res result) (v verdict) {
@@ -43,6 +48,7 @@ func judge(c Case, res result) (v verdict) {
 	faithful := (c.Timing == tImmediate || c.Timing == tSlow) && (c.Ctx == cBackground || c.Ctx == cFar)
 	descNoEnd := isDesc(c.Timing) && !limited && c.Ctx != cCancelled
 	add := func(key, what string) { v.Viols = append(v.Viols, viol{key, what}) }
+	rec := func(key string) { v.Recorded = append(v.Recorded, key) }
 	tuple := fmt.Sprintf("cmd=%s exit=%s stdout=%s stderr=%s timing=%s ctx=%s req=%s", c.Cmd, c.Exit, c.Stdout, c.Stderr, c.Timing, c.Ctx, c.Req)
 
 	phase := "reply"
@@ -91,7 +97,8 @@ func judge(c Case, res result) (v verdict) {
 	}
 
 	// ---- positive control ----
-	if faithful && exit0 && soLabel == soHonest && se.Label == seEmpty {
+	// (a plugin that never reads a 1 MiB request is not the honest plugin: req=large is recorded, not a control)
+	if faithful && exit0 && soLabel == soHonest && se.Label == seEmpty && c.Req != "large" {
 		v.Control = true
 		v.Judged = true
 		v.ControlOK = res.Success && res.DecodedOK
@@ -105,14 +112,29 @@ func judge(c Case, res result) (v verdict) {
 		}
 		switch soLabel {
 		case soInvalidMeta:
+			if so.Demoted {
+				// an empty/null member is arguably "present", "01.0" arguably denotes 1.0, ...: not fixed by the statement
+				rec("reply/accepted-invalid-metadata:" + soField)
+				break
+			}
 			v.Judged = true
 			add("reply/accepted-invalid-metadata:"+soField, "get-plugin-metadata succeeded on a reply that breaks the stated metadata clause '"+soField+"': "+tuple)
 		case soUndecodable:
+			if so.Demoted {
+				rec("reply/accepted-undecodable:" + c.Stdout) // e.g. a stream decoder that stops after the first JSON value
+				break
+			}
 			v.Judged = true
 			add("reply/accepted-undecodable:"+c.Stdout, "the call succeeded although stdout is not a JSON value of the reply type: "+tuple)
 		case soOversize:
-			v.Judged = true
-			add("cap/oversized-reply-accepted", "the call succeeded on a reply larger than the 64 MiB output cap: "+tuple)
+			if so.Garbage || so.Tail != "" {
+				v.Judged = true
+				add("reply/accepted-undecodable:"+c.Stdout, "the call succeeded although stdout as a whole is not a JSON value (and larger than the cap): "+tuple)
+			} else {
+				// a valid JSON value followed by blanks IS a JSON reply; the statement bounds what the host buffers
+				// (cap monitor below), it does not say that an oversized reply must be refused
+				rec("cap/oversized-reply-accepted")
+			}
 		case soHonest:
 			v.Judged = true
 			if !res.DecodedOK {
@@ -120,8 +142,9 @@ func judge(c Case, res result) (v verdict) {
 			}
 		}
 		if c.Cmd == "get-plugin-metadata" && res.MetaProblem != "" {
-			v.Judged = true
-			add("reply/returned-invalid-metadata:"+res.MetaProblem, "the metadata RETURNED by a successful call breaks the clause '"+res.MetaProblem+"': "+tuple)
+			// second look at the returned value; the labelled clause above is the judged one (an empty string
+			// may count as present, a lenient version denotation as supported)
+			rec("reply/returned-invalid-metadata:" + res.MetaProblem)
 		}
 		if soLabel == soUnjudged {
 			rc = "success(shape not judged)"
@@ -140,6 +163,14 @@ func judge(c Case, res result) (v verdict) {
 				add(key, fmt.Sprintf("expected %s, got %s (code %q): %s [%s]", expect, res.ErrClass, res.Code, res.Err, tuple))
 			}
 		}
+		// the statement fixes the error's type only for "a failing process"; where the process did not fail by itself
+		// (exit 0 with an unusable reply, killed or never started by the host because the context ended, exit 0 while
+		// a descendant holds the pipes) the call must merely not succeed - the type is evidence only
+		wantRec := func(ok bool, key string) {
+			if !ok {
+				rec(key)
+			}
+		}
 		switch {
 		case isErrThenSleep(c.Timing) && limited && res.Printed:
 			// the plugin had written its stderr completely before the context killed it: a failing process that
@@ -150,20 +181,20 @@ func judge(c Case, res result) (v verdict) {
 			case seLenient:
 				want((res.ErrClass == "request-error" && res.Code == se.Code) || res.ErrClass == "malformed", "error/structured-error-lost-when-killed-by-context:"+se.Name, "proto.RequestError with the printed code (or a malformed-plugin error)")
 			default:
-				want(typedExec(res.ErrClass), "error/untyped-failure:killed-by-context-stderr-"+se.Name, "PluginExecutableFileError or PluginMalformedError")
+				v.Judged = true // refused, as demanded
+				wantRec(typedExec(res.ErrClass), "error/untyped-failure:killed-by-context-stderr-"+se.Name)
 			}
 			if rc == "request-error" {
 				rc = "request-error(plugin's own)"
 			}
 		case isErrThenSleep(c.Timing) && limited:
-			want(typedAny(res.ErrClass), "error/untyped-failure:context-"+c.Ctx, "a typed error")
-			rc = "typed-error (case not realised: killed before the plugin had finished printing, even with the delay doubled 6 times)"
+			wantRec(typedAny(res.ErrClass), "error/untyped-failure:context-"+c.Ctx)
+			rc = "error (case not realised: killed before the plugin had finished printing, even with the delay doubled 6 times)"
 		case !faithful && !descNoEnd:
-			// cut by a context: the process may not have got as far as scripted; the statement still demands a typed error
-			want(typedAny(res.ErrClass), "error/untyped-failure:context-"+c.Ctx, "a typed error (plugin's own / executable-file / malformed-plugin)")
-			if typedAny(res.ErrClass) {
-				rc = "typed-error" // which one depends on how far the process got before it was killed
-			}
+			// cut by a context: the process may not have got as far as scripted (or was never started); which error
+			// is reported (the context's, the kill's, the plugin's) depends on that and is not fixed by the statement
+			wantRec(typedAny(res.ErrClass), "error/untyped-failure:context-"+c.Ctx)
+			rc = "error"
 		case !exit0 && soLabel == soOversize:
 			// the host closes the pipe at the cap, the plugin dies of SIGPIPE before it reaches its stderr output
 			want(typedAny(res.ErrClass), "error/untyped-failure:oversize-stdout", "a typed error")
@@ -174,18 +205,24 @@ func judge(c Case, res result) (v verdict) {
 			case seLenient:
 				want((res.ErrClass == "request-error" && res.Code == se.Code) || res.ErrClass == "malformed", "error/structured-error-lost:"+se.Name, "proto.RequestError with the printed code (or a malformed-plugin error)")
 			case seEmpty, seUnstructured:
-				want(typedExec(res.ErrClass), "error/untyped-failure:stderr-"+se.Name, "PluginExecutableFileError or PluginMalformedError")
+				if se.Name == "empty-object" || se.Name == "null" {
+					// {} / null may be read as a structured error without members
+					want(typedAny(res.ErrClass), "error/untyped-failure:stderr-"+se.Name, "a typed error")
+				} else {
+					want(typedExec(res.ErrClass), "error/untyped-failure:stderr-"+se.Name, "PluginExecutableFileError or PluginMalformedError")
+				}
 			case seHuge:
 				want(typedAny(res.ErrClass), "error/untyped-failure:stderr-"+se.Name, "a typed error")
 			}
 		case descNoEnd: // exit 0, pipes held: WaitDelay turns the call into a failure; only "typed" is demanded
-			want(typedAny(res.ErrClass), "error/untyped-failure:descendant-holds-pipes", "a typed error")
+			wantRec(typedAny(res.ErrClass), "error/untyped-failure:descendant-holds-pipes")
 		case se.Label == seHuge:
-			want(typedAny(res.ErrClass), "error/untyped-failure:stderr-"+se.Name, "a typed error")
+			wantRec(typedAny(res.ErrClass), "error/untyped-failure:stderr-"+se.Name)
 		case soLabel == soUndecodable:
-			want(res.ErrClass == "malformed", "error/undecodable-reply-not-malformed:"+c.Stdout, "PluginMalformedError")
+			v.Judged = true // refused, as demanded
+			wantRec(res.ErrClass == "malformed", "error/undecodable-reply-not-malformed:"+c.Stdout)
 		case soLabel == soOversize:
-			want(typedAny(res.ErrClass), "error/untyped-failure:oversize-stdout", "a typed error")
+			wantRec(typedAny(res.ErrClass), "error/untyped-failure:oversize-stdout")
 		case soLabel == soInvalidMeta:
 			v.Judged = true // refused as demanded; the error type is not fixed by the statement
 		case se.Label != seEmpty:
@@ -214,7 +251,7 @@ func judge(c Case, res result) (v verdict) {
 			v.Judged = true
 			growth := res.HWMAfterKB - res.HWMBeforeKB
 			if growth > rssBoundKB(streams) {
-				add("cap/host-memory-grew-beyond-bound:"+which, fmt.Sprintf("peak RSS of the host grew by %d MiB during the call (bound %d MiB = 4 x cap per oversized stream): %s big=%dMiB", growth>>10, rssBoundKB(streams)>>10, tuple, c.BigMiB))
+				add("cap/host-memory-grew-beyond-bound:"+which, fmt.Sprintf("peak RSS of the host grew by %d MiB during the call (bound %d MiB = 8 x cap per oversized stream): %s big=%dMiB", growth>>10, rssBoundKB(streams)>>10, tuple, c.BigMiB))
 			}
 		}
 	}
